@@ -50,7 +50,8 @@ class C17(Prop):
     rule = ('numeric lists from graded domains: small ints exhaustively (all lists over {-2..2} of length <= 3 quick / <= 5 '
             'thorough x all compositions into <= 4 partitions incl. empty ones), mixed-magnitude floats sampled, size ratios '
             'straddling 10 for the mean-update branches, random merge trees incl. self-merge and empty partials, DataFrame '
-            'cov/corr over random partitionings. The model runs on the exact rational value of every input double; the '
+            'cov/corr over random partitionings (one case in eight with a constant column of a non-dyadic value, where corr must be NaN '
+            'for every split). The model runs on the exact rational value of every input double; the '
             'implementation\'s floats must lie within 1e-9 x magnitude of the two-pass value (= model value, exactly equal '
             'in Lean). Non-trivial = at least two values and two partitions/partials; distinct = distinct canonical case.')
     trusted = ('IEEE-754 rounding: theorems are exact-arithmetic; the 1e-9 claim for doubles is measured, not proved',
@@ -83,6 +84,16 @@ class C17(Prop):
         out.append({'op': 'tree', 'tree': {'l': [1.0, 2.0], 'r': {'self': [5.0, 7.0, 9.0]}}, 'via': 'rdd'})
         out.append({'op': 'tree', 'tree': {'l': [], 'r': {'self': []}}})
         out.append({'op': 'stats', 'parts': [[], [], []]})
+        # a constant column of a value that is not a dyadic rational: corr is 0/0 = NaN for EVERY split (third hunt; the merge of
+        # the covariance counters recomputed the mean with rounding, 0.1 * 3 / 3 != 0.1; repaired in 0615c20)
+        rows = [[0.1, 1.0], [0.1, 2.0], [0.1, 4.0], [0.1, 3.0]]
+        for cut in ([4], [3, 1], [3, 0, 1], [0, 3, 1, 0], [2, 1, 1], [1, 1, 1, 1]):
+            parts, i = [], 0
+            for n in cut:
+                parts.append(rows[i:i + n])
+                i += n
+            out.append({'op': 'cov', 'parts': parts})
+            out.append({'op': 'cov', 'parts': [[[y, x] for x, y in p] for p in parts]})
         return out
 
     def gen_num(self, rng, style):
@@ -111,8 +122,15 @@ class C17(Prop):
         if r < .75:
             return dict({'op': 'tree', 'tree': self.gen_tree(rng, style, 3)}, **({'via': 'rdd'} if rng.random() < .4 else {}))
         n = rng.choice([0, 1, 2, 3, 5, 8, 20])
-        if rng.random() < .3:      # correlated data
+        rc = rng.random()
+        if rc < .3:      # correlated data
             xs = [(x, 2 * x + self.gen_num(rng, 'unit')) for x in (self.gen_num(rng, style) for _ in range(n))]
+        elif rc < .42:
+            # one column constant (a value that is not a dyadic rational): the two-pass sum of squared deviations is exactly 0
+            # and corr is 0/0 = NaN for EVERY split - also when a merged mean c*n/n would be off by one unit in the last place
+            c = rng.choice([0.1, 0.3, 0.7, 1.1, 2.7, -0.1, 1e-3, 1 / 3, 123.456, 0.5, 3.0])
+            n = rng.choice([2, 3, 4, 5, 6, 8, 12])
+            xs = [(c, self.gen_num(rng, style)) if rc < .36 else (self.gen_num(rng, style), c) for _ in range(n)]
         else:
             xs = [(self.gen_num(rng, style), self.gen_num(rng, style)) for _ in range(n)]
         return {'op': 'cov', 'parts': [[list(p) for p in part] for part in random_layout(rng, xs, 4)]}
